@@ -336,6 +336,18 @@ func VH22f_device_oneway() {
 		verif.Assert(mangos.Device(front, back) == nil, lab+"/device")
 		devs = append(devs, front, back)
 	}
+	if (k[0] == "pair1" || k[0] == "star") && n >= 1 && verif.Choice("device-ttl", 2) == 1 {
+		// the device sockets get the smallest hop limit that still admits what each of them RECEIVES on this route
+		// (the limit is a receiver's; what a socket sends on is for the next receiver to judge - here the default 8)
+		t := n
+		if k[0] == "pair1" && n > 1 {
+			t = n - 1
+		}
+		for _, d := range devs {
+			verif.Assert(d.SetOption(mangos.OptionTTL, t) == nil, lab+"/device-ttl")
+		}
+		verif.Reach("device-ttl-below-the-route-length")
+	}
 	tx := vp.New(k[0])
 	an, on := hop(n)
 	verif.Assert(tx.DialOptions(an, on) == nil, lab+"/dial")
